@@ -37,6 +37,16 @@ import (
 // The test snapshots, at the moment r1 RECEIVES its first freeze statement and at the moment it RECEIVES the
 // promotion statement: (a) is r1 listed under optimization_nodes/ in the coordination service, (b) are r1's
 // durability settings relaxed.
+//
+// Observed (16 cores and GOMAXPROCS=1, 10 runs): (a) holds at freeze and at promotion in every run (nothing deletes
+// the entry that Enable created). (b) holds at promotion in every run; at the freeze it depends on the goroutine
+// interleaving: the syncer's Sync is still running when Wait returns and cancels the context (the context is only
+// looked at between ticks), so its two SET GLOBAL statements race with the freeze - in some runs r1 receives
+// sync_binlog=1000 only AFTER its first read-only statement (innodb_flush_log_at_trx_commit=2 was already set).
+// If the syncer goroutine lost the race for its first tick against the cancellation (not observed), only (a) would hold.
+// Epilogue: the next ordinary manager iteration deregisters r1 (it is a master now => "malfunctioning") and "restores"
+// the settings of r1 to those of the master - r1 itself - so the new master keeps sync_binlog=1000 /
+// innodb_flush_log_at_trx_commit=2 indefinitely.
 
 // ---- a database/sql driver that wraps the harness driver and calls a hook before every statement
 type vfHookDriver struct{}
@@ -201,6 +211,9 @@ func TestVerifFinding_C19_OptimizationPhaseLeavesCandidateOptimisingAtFreezeAndP
 	if master != "r1" || r1.ReadOnly || r1.IsReplica {
 		t.Fatalf("scenario broken: r1 was not promoted (master %q, r1 read_only=%v replica=%v)", master, r1.ReadOnly, r1.IsReplica)
 	}
+	regOps := vfC19RegistryOps(d)
+	durability := append(r1.stmts("sync_binlog"), r1.stmts("innodb_flush_log_at_trx_commit")...)
+
 	// epilogue (informational): every health checker republishes, the manager runs its next ordinary iteration
 	vfHealthFromDB(app, d)
 	st2 := app.stateManager()
@@ -213,7 +226,7 @@ func TestVerifFinding_C19_OptimizationPhaseLeavesCandidateOptimisingAtFreezeAndP
 			"when r1 received the promotion statement (SET GLOBAL read_only = 0) %v; "+
 			"after the iteration (r1 is the recorded, writable master) %v. "+
 			"Registry ops during the iteration: %v. Durability statements received by r1: %q",
-			freeze, promote, end, vfC19RegistryOps(d), append(r1.stmts("sync_binlog"), r1.stmts("innodb_flush_log_at_trx_commit")...))
+			freeze, promote, end, regOps, durability)
 	}
 }
 
